@@ -1,5 +1,6 @@
 import RosuModel.Props.C15ShiftOn
 import RosuModel.Lemmas.FloatIntExact
+import RosuModel.Model.Cmds.Curve
 namespace Rosu.C15
 open Rosu Scalar
 
@@ -47,5 +48,214 @@ theorem shiftLawsOn_float_int (k : Int) (hk : k.natAbs < 2 ^ 51) :
 
 theorem shiftLawsOn_intTime (k : Int) (hk : k.natAbs < 2 ^ 51) : ShiftLawsOn IntTime (Float.ofInt k) :=
   shiftLawsOn_float_int k hk
+
+
+/-! ## headline, state level: the finaliser on integer times -/
+
+/-- **shift invariance of the finaliser for IEEE doubles, integer times, no sliders**: for every unfinalised state whose stored
+times (object starts, spinner / hold durations and the end / lookup times `start + duration`, `… + 5` formed from them, break
+ends, control-point and pending-group times) are doubles that are integers below `2^51`, and every integer shift `|k| < 2^51`:
+finalising the state with every time `k` later gives the finalised state with every object, break and control-point time `k`
+later, and nothing else changed. No law hypothesis: this is a statement about the driver's `Float` / `Float32`. -/
+theorem shift_invariant_float_int_finish (k : Int) (hk : k.natAbs < 2 ^ 51) (st : HitObjectsState Float Float32)
+    (hin : StateIn IntTime st) (hns : ∀ o ∈ st.core.hitObjects, isSlider o = false) :
+    (shiftState (Float.ofInt k) st).finish = (st.finish).map (shiftHitObjects (Float.ofInt k)) :=
+  finish_shift_on (shiftLawsOn_intTime k hk) st hin hns
+
+/-- … **sliders included**: everything but the samples resolved for a slider at its non-integer node / end times
+(`eraseSliderSamples`): order, new-combo flags, start times, slider velocity, curve errors, breaks, control points, and every
+circle / spinner / hold in full. -/
+theorem shift_invariant_float_int_finish_erased (k : Int) (hk : k.natAbs < 2 ^ 51) (st : HitObjectsState Float Float32)
+    (hin : StateIn IntTime st) :
+    ((shiftState (Float.ofInt k) st).finish).map eraseHO =
+      (st.finish).map (fun ho => eraseHO (shiftHitObjects (Float.ofInt k) ho)) :=
+  finish_shift_on_erased (shiftLawsOn_intTime k hk) st hin
+
+/-- relational forms (what the line-level fold produces). -/
+theorem shift_invariant_float_int_rel (k : Int) (hk : k.natAbs < 2 ^ 51) (st st' : HitObjectsState Float Float32)
+    (h : StateRel (Float.ofInt k) st st') (hin : StateIn IntTime st) (hns : ∀ o ∈ st.core.hitObjects, isSlider o = false) :
+    st'.finish = (st.finish).map (shiftHitObjects (Float.ofInt k)) :=
+  finish_rel_on (shiftLawsOn_intTime k hk) st st' h hin hns
+
+/-- a sufficient condition for `ObjIn IntTime`: start and duration are integers below `2^49`. -/
+theorem objIn_of_small (h : HitObject Float Float32) (s d : Int) (hs : s.natAbs < 2 ^ 49) (hd : d.natAbs < 2 ^ 49)
+    (e1 : h.startTime = Float.ofInt s)
+    (e2 : match h.kind with
+      | .spinner c => c.duration = Float.ofInt d
+      | .hold c => c.duration = Float.ofInt d
+      | _ => True) : ObjIn IntTime h := by
+  have a5 : ∀ x : Int, x.natAbs < 2 ^ 50 → Float.ofInt x + (5 : Float) = Float.ofInt (x + 5) := fun x hx =>
+    FIE.add_int_exact_float x 5 (by omega) (by decide) (by omega)
+  refine ⟨⟨s, by omega, e1⟩, ?_⟩
+  cases hk : h.kind with
+  | circle c => exact ⟨s + 5, by omega, by rw [e1]; exact a5 s (by omega)⟩
+  | slider c => trivial
+  | spinner c =>
+    rw [hk] at e2
+    simp only at e2
+    have e3 : h.startTime + c.duration = Float.ofInt (s + d) := by
+      rw [e1, e2]; exact FIE.add_int_exact_float s d (by omega) (by omega) (by omega)
+    exact ⟨⟨d, by omega, e2⟩, ⟨s + d, by omega, e3⟩, ⟨s + d + 5, by omega, by rw [e3]; exact a5 _ (by omega)⟩⟩
+  | hold c =>
+    rw [hk] at e2
+    simp only at e2
+    have e3 : h.startTime + c.duration = Float.ofInt (s + d) := by
+      rw [e1, e2]; exact FIE.add_int_exact_float s d (by omega) (by omega) (by omega)
+    exact ⟨⟨d, by omega, e2⟩, ⟨s + d, by omega, e3⟩, ⟨s + d + 5, by omega, by rw [e3]; exact a5 _ (by omega)⟩⟩
+
+/-! ### non-vacuity: a concrete state with integer times (doubles), unsorted objects, a break, control points, a pending group -/
+
+def fSmp : HitSampleInfo := HitSampleInfo.new (.default .normal) none 0 0
+def fCircle (t : Int) : HitObject Float Float32 :=
+  { startTime := Float.ofInt t, kind := .circle { pos := { x := 0, y := 0 }, newCombo := false, comboOffset := 0 }, samples := [fSmp] }
+def fSpinner (t d : Int) : HitObject Float Float32 :=
+  { startTime := Float.ofInt t, kind := .spinner { pos := { x := 256, y := 192 }, duration := Float.ofInt d, newCombo := false },
+    samples := [fSmp] }
+def fHold (t d : Int) : HitObject Float Float32 :=
+  { startTime := Float.ofInt t, kind := .hold { posX := 0, duration := Float.ofInt d }, samples := [] }
+
+def fState : HitObjectsState Float Float32 :=
+  { core := { hitObjects := [fCircle 500, fSpinner 100 50, fHold 300 10, fCircle 260], lastObject := some 1 },
+    events := { backgroundFile := [], breaks := [{ startTime := Float.ofInt 200, endTime := Float.ofInt 250 }] },
+    timingPoints :=
+      { general := GeneralState.default, pendingTime := Float.ofInt 400,
+        pending := { sample := some ⟨Float.ofInt 400, .soft, 30, 2⟩ },
+        controlPoints := { timingPoints := [⟨Float.ofInt 0, 500, false, ⟨4⟩⟩],
+                           samplePoints := [⟨Float.ofInt 90, .drum, 60, 0⟩] } },
+    difficulty := DifficultyState.create }
+
+theorem fState_in : StateIn IntTime fState := by
+  refine ⟨?_, ?_, ⟨?_, ?_, ?_, ?_⟩, ⟨?_, ?_, ?_, ?_⟩⟩
+  · intro h hh
+    simp only [fState, List.mem_cons, List.mem_nil_iff, or_false] at hh
+    rcases hh with rfl | rfl | rfl | rfl
+    · exact objIn_of_small _ 500 0 (by decide) (by decide) rfl trivial
+    · exact objIn_of_small _ 100 50 (by decide) (by decide) rfl rfl
+    · exact objIn_of_small _ 300 10 (by decide) (by decide) rfl rfl
+    · exact objIn_of_small _ 260 0 (by decide) (by decide) rfl trivial
+  · intro b hb
+    simp only [fState, List.mem_singleton] at hb
+    subst hb
+    exact intTime_ofInt 250 (by decide)
+  · intro p hp
+    simp only [fState, List.mem_singleton] at hp
+    subst hp
+    exact intTime_ofInt 0 (by decide)
+  · intro p hp; cases hp
+  · intro p hp; cases hp
+  · intro p hp
+    simp only [fState, List.mem_singleton] at hp
+    subst hp
+    exact intTime_ofInt 90 (by decide)
+  · intro p hp; cases hp
+  · intro p hp; cases hp
+  · intro p hp; cases hp
+  · intro p hp
+    simp only [fState, Option.some.injEq] at hp
+    subst hp
+    exact intTime_ofInt 400 (by decide)
+
+/-- `shift_invariant_float_int_finish` applied: one second later (all hypotheses hold of `fState`). -/
+example : (shiftState (Float.ofInt 1000) fState).finish = (fState.finish).map (shiftHitObjects (Float.ofInt 1000)) :=
+  shift_invariant_float_int_finish 1000 (by decide) fState fState_in (by
+    intro o ho
+    simp only [fState, List.mem_cons, List.mem_nil_iff, or_false] at ho
+    rcases ho with rfl | rfl | rfl | rfl <;> rfl)
+
+/-- what the finaliser loop does on it, evaluated by the kernel on IEEE doubles (objects listed in start-time order, the
+pending sample point at 400 flushed): the circle after the break is forced to a new combo, the spinner sample is resolved at
+`100 + 50 + 5` against the point at 90 (volume 60), the last circle's at 505 against the point at 400 (volume 30). -/
+example : ((finalizeObjects GameMode.osu (1.4 : Float) fState.timingPoints.finish.2
+      (postProcessBreaks fState.events.breaks [fSpinner 100 50, fCircle 260, fHold 300 10, fCircle 500] 0)
+      emptyBuffers).toOption.map (fun hs => hs.map (fun h => (kindNewCombo h.kind, h.samples.map (·.volume))))) =
+    some [(false, [60]), (true, [60]), (false, []), (false, [30])] := by decide +kernel
+
+/-! ## the slider clause is FALSE of IEEE doubles, on integer times and a small integer shift
+
+A slider at `t = 1000` whose duration is `1 − 2^-45` ms (one span of length `1 − 2^-45` px at 1 px/ms; `0.99999999999995` in a file
+behaves the same) ends, in double arithmetic, at `fl(1000 + (1 − 2^-45)) = 1001` (the spacing of doubles near 1000 is `2^-43`), so
+its end-time sample lookup happens at `1001 + 5 = 1006` and finds the sample point AT `1006` (volume 30). The same map 1000 ms
+earlier: `fl(0 + (1 − 2^-45)) = 1 − 2^-45` exactly, the lookup happens at `6 − 2^-45 < 6` and finds the point before the one at
+`6` (volume 100). Every stored time is an integer below 2000 and the shift is `−1000`. -/
+
+def d45 : Float := Float.ofBits 0x3FEFFFFFFFFFFF00  -- 1 - 2^-45
+
+def pathX : SliderPathData Float Float32 :=
+  { mode := .osu
+    controlPoints := [{ pos := { x := 0, y := 0 }, pathType := some PathType.linear }, { pos := { x := 100, y := 0 }, pathType := none }]
+    expectedDist := some d45 }
+
+def smp : HitSampleInfo := HitSampleInfo.new (.default .normal) none 0 0
+
+def sliderKindX : HitObjectSlider Float Float32 :=
+  { pos := { x := 100, y := 100 }
+    newCombo := false
+    comboOffset := 0
+    path := pathX
+    nodeSamples := [[smp], [smp]]
+    repeatCount := 0
+    velocity := 1 }
+
+def sliderX : HitObject Float Float32 :=
+  { startTime := Float.ofInt 1000, kind := .slider sliderKindX, samples := [smp] }
+
+def stX : HitObjectsState Float Float32 :=
+  { core := { hitObjects := [sliderX] },
+    events := { backgroundFile := [], breaks := [] },
+    timingPoints :=
+      { general := GeneralState.default, pendingTime := Float.ofInt 1006, pending := Pending.empty,
+        controlPoints := { timingPoints := [⟨Float.ofInt 0, 100, false, ⟨4⟩⟩],
+                           samplePoints := [⟨Float.ofInt 0, .normal, 100, 0⟩, ⟨Float.ofInt 1006, .soft, 30, 2⟩] } },
+    difficulty := { (DifficultyState.create : DifficultyState Float Float32) with difficulty := { (Difficulty.default : Difficulty Float Float32) with sliderMultiplier := 1 } } }
+
+/-- what is observed: per object its start-time bits, the volumes of its samples and of its node samples. -/
+def obs (ho : HitObjects Float Float32) : List (UInt64 × List Int × List (List Int)) :=
+  ho.hitObjects.map fun h => (h.startTime.toBits, h.samples.map (·.volume),
+    match h.kind with
+    | .slider s => s.nodeSamples.map (fun ns => ns.map (·.volume))
+    | _ => [])
+
+
+theorem stX_in : StateIn IntTime stX := by
+  refine ⟨?_, ?_, ⟨?_, ?_, ?_, ?_⟩, pendingIn_empty⟩
+  · intro h hh
+    simp only [stX, List.mem_singleton] at hh
+    subst hh
+    exact ⟨intTime_ofInt 1000 (by decide), trivial⟩
+  · intro b hb; cases hb
+  · intro p hp
+    simp only [stX, List.mem_singleton] at hp
+    subst hp
+    exact intTime_ofInt 0 (by decide)
+  · intro p hp; cases hp
+  · intro p hp; cases hp
+  · intro p hp
+    simp only [stX, List.mem_cons, List.mem_nil_iff, or_false] at hp
+    rcases hp with rfl | rfl
+    · exact intTime_ofInt 0 (by decide)
+    · exact intTime_ofInt 1006 (by decide)
+
+/-- the two sides of `finish_shift` on the witness, evaluated by the kernel: the finaliser on the shifted state gives the slider
+(and its end node) volume 100, the shift of the finalised state has volume 30. -/
+theorem slider_samples_shift_witness :
+    ((shiftState (Float.ofInt (-1000)) stX).finish).toOption.map obs = some [(0, [100], [[100], [100]])] ∧
+    ((stX.finish).map (shiftHitObjects (Float.ofInt (-1000)))).toOption.map obs = some [(0, [30], [[100], [30]])] := by
+  constructor <;> decide +kernel
+
+/-- **finding**: `finish_shift` restricted to integer times is NOT a theorem of IEEE doubles once a slider is present — the
+hypothesis "no slider" of `shift_invariant_float_int_finish` (equivalently the erasure of slider samples in
+`shift_invariant_float_int_finish_erased`) cannot be dropped. -/
+theorem slider_samples_shift_false :
+    ¬ (∀ st : HitObjectsState Float Float32, StateIn IntTime st →
+        (shiftState (Float.ofInt (-1000)) st).finish = (st.finish).map (shiftHitObjects (Float.ofInt (-1000)))) := by
+  intro h
+  have e := congrArg (fun r => r.toOption.map obs) (h stX stX_in)
+  simp only [slider_samples_shift_witness.1, slider_samples_shift_witness.2] at e
+  revert e
+  decide
+
+/-- the law behind it: `(a + k) + d = (a + d) + k` fails for integers `a`, `k` and a non-integer `d`. -/
+theorem add_right_comm_nonint_false :
+    (Float.ofInt 1000 + Float.ofInt (-1000)) + d45 ≠ (Float.ofInt 1000 + d45) + Float.ofInt (-1000) := by decide +kernel
 
 end Rosu.C15
